@@ -3,11 +3,12 @@ Line-protocol driver for the C08 replication model.
 
   reset
   append <hex> | append -        leader WriteLog (`-` = empty message)
-  step <fault>                   one partition.replica call; fault ∈ none cli getack reset connect send recv
-  frestart | flose | lsnap | lrestore | lrestart | offline | online <fault> | gc | oack <n>
+  step <a|b> <fault>             one partition.replica call for that follower; fault ∈ none cli getack reset connect send recv
+  frestart <w> | flose <w> | offline <w> | online <w> <fault>
+  lsnap | lrestore <k> | lrestart | gc | expire
 
 Every line answers
-  <out> L=<ack>/<app> c=<cons> g=<gack> o=<oack> [<i>:<hex> ...] F=<ack>/<app> [<i>:<hex> ...] <chan> <stream> live=<b> susp=<b> img=<b>
+  <out> L=<ack>/<app> [<i>:<hex> ...] A: c=<cons> g=<gack> F=<ack>/<app> [..] <chan> <stream> live=<b> susp=<b> stop=<b> B: ... imgs=<n> gone=<b>
 where the bracketed lists are `Get(i)` for every `ack < i ≤ app` (`!` = Get failed).
 The comparison that guards ResetAppendIndex is taken from the regenerated fact `aheadFixed`.
 -/
@@ -61,30 +62,37 @@ def showStream : Stream → String
 def showOut : Out → String
   | .suspended => "suspended" | .parked => "parked" | .notready => "notready" | .idle => "idle"
   | .ignored => "ignored" | .sendfail => "sendfail" | .recvfail => "recvfail" | .acked => "acked"
-  | .mismatch => "mismatch"
+  | .mismatch => "mismatch" | .noreplicator => "noreplicator" | .expired => "expired" | .gone => "gone"
 
 def b01 (b : Bool) : String := if b then "1" else "0"
 
+def showPeer (c g : Int) (F : Log) (ch : Chan) (st : Stream) (live susp stopped : Bool) : String :=
+  let cs := if stopped then "- -" else s!"{showChan ch} {showStream st}"
+  s!"c={c} g={g} F={showLog F} {cs} live={b01 live} susp={b01 susp} stop={b01 stopped}"
+
 def showSt (s : St) : String :=
-  s!"L={showLog s.L} c={s.cons} g={s.gack} o={s.oack} F={showLog s.F} {showChan s.chan} {showStream s.stream} live={b01 s.live} susp={b01 s.susp} img={b01 s.img.isSome}"
+  s!"L={showLog s.L} A: {showPeer s.cons s.gack s.F s.chan s.stream s.live s.susp s.stopped} B: {showPeer s.cons2 s.gack2 s.F2 s.chan2 s.stream2 s.live2 s.susp2 s.stopped2} imgs={s.imgs.length} gone={b01 s.gone}"
 
 def parseFault : String → Option Fault
   | "none" => some .none | "cli" => some .cli | "getack" => some .getack | "reset" => some .reset
   | "connect" => some .connect | "send" => some .send | "recv" => some .recv
   | _ => none
 
+def parseWho : String → Option Who
+  | "a" => some .a | "b" => some .b | _ => none
+
 def parseEv : List String → Option Ev
   | ["append", w] => (parseMsg w).map Ev.append
-  | ["step", f] => (parseFault f).map Ev.step
-  | ["frestart"] => some .frestart
-  | ["flose"] => some .flose
+  | ["step", w, f] => do let w ← parseWho w; let f ← parseFault f; some (.step w f)
+  | ["frestart", w] => (parseWho w).map Ev.frestart
+  | ["flose", w] => (parseWho w).map Ev.flose
   | ["lsnap"] => some .lsnap
-  | ["lrestore"] => some .lrestore
+  | ["lrestore", k] => k.toNat?.map Ev.lrestore
   | ["lrestart"] => some .lrestart
-  | ["offline"] => some .offline
-  | ["online", f] => (parseFault f).map Ev.online
+  | ["offline", w] => (parseWho w).map Ev.offline
+  | ["online", w, f] => do let w ← parseWho w; let f ← parseFault f; some (.online w f)
   | ["gc"] => some .gc
-  | ["oack", n] => n.toInt?.map Ev.oack
+  | ["expire"] => some .expire
   | _ => none
 
 def cfg : Cfg := { fixed := LinVerif.Generated.C08.aheadFixed }
